@@ -3,21 +3,37 @@
 From Coq Require Import ZArith Reals String.
 From Flocq Require Import Core IEEE754.Binary IEEE754.Bits.
 From FitV Require Import Model.FitTime Proofs.FitTimeProofs Model.LatLng Spec.FixedPoint Proofs.LatLngProofs.
-From FitV Require Import Gen.C17Consts Proofs.C17Consts.
+From FitV Require Import Gen.C17Consts Proofs.C17Consts Gen.C17Funcs Proofs.C17Funcs.
 Local Open Scope Z_scope.
 
 (* ---- tie to the source text: the constants and comparison operators that
    `vh gen` reads out of the current latlng.go / time.go (Gen/C17Consts.v) are
    the ones the models use ---- *)
 Theorem C17_latlng_source_agrees :
-  src_sint32Invalid = sint32_invalid /\ src_precision = precision /\ src_stringInvalid = string_invalid /\
-  src_NewLatitude = model_NewLatitude /\
-  src_NewLatitudeDegrees = model_NewLatitudeDegrees /\
-  src_NewLongitudeDegrees = model_NewLongitudeDegrees /\
-  src_Latitude_Degrees = model_sentinel_test /\ src_Longitude_Degrees = model_sentinel_test /\
-  src_Latitude_Invalid = model_sentinel_test /\ src_Longitude_Invalid = model_sentinel_test /\
-  src_Latitude_String = model_String /\ src_Longitude_String = model_String.
+  src_sint32Invalid = sint32_invalid /\ src_precision = precision /\ src_stringInvalid = string_invalid.
 Proof. exact latlng_consts_agree. Qed.
+
+(* latlng.go itself, translated function by function into Gen/C17Funcs.v on every check (harness/gen_c17funcs.go),
+   computes on every argument what the model of this file computes: every int32 receiver / argument, every float64
+   argument (NaN and infinities included).  The proofs are semantic (case analysis on the comparisons), so a rewrite
+   of the source that keeps the behaviour keeps them. *)
+Theorem C17_latlng_translated :
+  (forall s, is_i32 s -> go_NewLatitude s = lat_semicircles (new_latitude s) /\
+                         go_Latitude_Semicircles s = lat_semis (mk_lat s) /\
+                         go_Latitude_Invalid s = lat_invalid (mk_lat s) /\
+                         go_Latitude_Degrees s = lat_degrees (mk_lat s) /\
+                         go_Latitude_String s = lat_string (mk_lat s) /\
+                         go_NewLongitude s = lng_semicircles (new_longitude s) /\
+                         go_Longitude_Semicircles s = lng_semis (mk_lng s) /\
+                         go_Longitude_Invalid s = lng_invalid (mk_lng s) /\
+                         go_Longitude_Degrees s = lng_degrees (mk_lng s) /\
+                         go_Longitude_String s = lng_string (mk_lng s)) /\
+  (forall d, go_NewLatitudeDegrees d = lat_semicircles (new_latitude_degrees d) /\
+             go_NewLongitudeDegrees d = lng_semicircles (new_longitude_degrees d)) /\
+  go_NewLatitudeInvalid = lat_semicircles new_latitude_invalid /\
+  go_NewLongitudeInvalid = lng_semicircles new_longitude_invalid.
+Proof. exact latlng_translated. Qed.
+Print Assumptions C17_latlng_translated.
 
 Theorem C17_time_source_agrees :
   match src_timeBase with
